@@ -757,6 +757,27 @@ def _numeric(ctx):
         if back is None or dlon(back[0], p[0]) > 1e-9 or abs(back[1] - p[1]) > 1e-9 or abs(back[2] - p[2]) > 1e-3:
             bad_i = bad_i or {'geographic (lon, lat, h)': list(p), 'ECEF': list(got), 'converted back (lon, lat, h)': list(back) if back else (r2 if not ok else repr(r2)),
                               'tolerance': '1e-9 degree, 1 mm'}
+    # ... and a position object that is converted, moved with its setters (one coordinate at a time) and converted again: the second
+    # conversion is that of the place it now is at
+    for p, q in (((2.3522, 48.8566, 35.5), (2.3522, 48.8566, 1200.0)), ((2.3522, 48.8566, 35.5), (-120.5, 48.8566, 35.5)), ((45.0, -45.0, 0.0), (45.0, 23.5, 0.0)),
+                 ((135.25, 80.0, 10000.0), (-90.0, -67.25, -1000.0))):
+        if not all(m_ in ctx.prog.cls(OC + '.GeoCoords').methods or ctx.prog.method(OC + '.GeoCoords', m_) is not None for m_ in ('setX', 'setY', 'setZ')):
+            break
+        n_e += 1
+
+        def moved():
+            g_ = G(*p)
+            g_.call('toECEFCoords')
+            for m_, old_, new_ in zip(('setX', 'setY', 'setZ'), p, q):
+                if old_ != new_:
+                    g_.call(m_, new_)
+            return g_.call('toECEFCoords')
+        ok, r = run(f_e, moved)
+        got = fields(r, ('X', 'Y', 'Z')) if ok else None
+        want = ecef(*q)
+        if got is None or any(abs(g - w) > 1e-6 + 1e-13 * abs(w) for g, w in zip(got, want)):
+            bad_e = bad_e or {'history': 'a GeoCoords is converted, moved with setX / setY / setZ, converted again', 'first at (lon, lat, h)': list(p), 'moved to': list(q),
+                              'second conversion returned (X, Y, Z)': list(got) if got else (r if not ok else repr(r)), 'closed form at the new place': list(want)}
     out['E'] = (f_e, bad_e, n_e)
     out['I'] = (f_i, bad_i, n_i)
     # R: local frames - the base maps to (0, 0, 0); points map to the rotation of the ECEF difference; and back; base given as GeoCoords or ECEFCoords
